@@ -1,9 +1,13 @@
 import enumcheck
-LEGS = [{"name": "C17", "variant": "serial-O2", "sources": ["harness/C17_compare.c"]}]
+LEGS = [{"name": "C17", "variant": "serial-O2", "sources": ["harness/C17_compare.c"]},
+        {"name": "C17big", "variant": "serial-O2", "sources": ["harness/C17_big.c"]},
+        {"name": "C17bigt", "variant": "gomp", "sources": ["harness/C17_big.c"], "env": {"OMP_NUM_THREADS": "4"}}]
 run, replay = enumcheck.simple("C17", LEGS,
     "for every listed set of 2..4 uniquely named sequences (lengths <= 3 resp. 4): ALL alignments of the set without all-gap column are generated; "
     "a case is (set, reference alignment) and inside it EVERY test alignment of the set is compared, each pair under one (row order of both files, "
     "all-gap columns at front/middle/end, FASTA/Clustal/MSF rendering) variant taken from a cycle over all of them, the identical pair under all "
-    "row orders; plus the alignment a run in the same process produces as reference against each file alignment. library_calls counts the "
+    "row orders; plus the alignment a run in the same process produces as reference against each file alignment; legs C17big / C17bigt: 96 "
+    "pairs of alignments of 2 / 63 / 64 / 65 / 96 / 130 rows x 36 columns (reference vs a test alignment with shifted gap runs, and reference "
+    "vs itself, 5 rounds) on the OpenMP-free build and on the real libgomp with 4 threads. library_calls counts the "
     "comparisons. Files always contain a gap character (premise). non-trivial = score strictly between 0 and 100", "nontrivial_score_strictly_between",
     ["the score definition is re-implemented over column-membership relations in double precision; tolerance 1e-4 relative (API returns float)"])
